@@ -43,12 +43,20 @@ func identDictU(rng *rand.Rand, nvals int, utf8Only bool) *vx.Dict {
 	return vx.NewDict(cols, vals)
 }
 
+// wsDict: values that differ only in the white space inside them (and around them)
+func wsDict() *vx.Dict {
+	return vx.NewDict([]string{"Zed", "a", "b1", "c_x"}, []string{" a b", "a\tb", "a  b", "a b", "a b "})
+}
+
 // render writes a rank expression as query text (own renderer; not the formatter under test).
 func render(d *vx.Dict, e *vx.Expr, top bool) string {
 	switch e.Op {
 	case "eq":
 		return d.Col(e.Col) + " = \"" + strings.ReplaceAll(d.Val(e.Val), "\"", "\"\"") + "\""
 	case "ph":
+		if e.Ph >= 8 {
+			return fmt.Sprintf("%s = $0%d", d.Col(e.Col), e.Ph) // the grammar's number is digit{digit}: leading zeros are legal
+		}
 		return fmt.Sprintf("%s = $%d", d.Col(e.Col), e.Ph)
 	case "not":
 		return "^ " + render(d, e.E, false)
@@ -184,9 +192,13 @@ func replaySQL(args []string) error {
 	fs := flag.NewFlagSet("replay-sql", flag.ExitOnError)
 	in := fs.String("in", "", "ndjson from Gen_Lib")
 	seed := fs.Int64("seed", 1, "seed")
+	dictKind := fs.String("dict", "nasty", "nasty | ws (values differing only in white space)")
 	fs.Parse(args)
 	rng := rand.New(rand.NewSource(*seed))
 	dict := identDict(rng, 4)
+	if *dictKind == "ws" {
+		dict = wsDict()
+	}
 	dir := vx.Scratch("replaysql")
 	defer os.RemoveAll(dir)
 	rep := &vx.Report{Notes: map[string]any{"cols": dict.Cols, "vals": dict.Vals}}
@@ -627,6 +639,23 @@ func recordSQLConc(args []string) error {
 			emit(map[string]any{"ev": "SqlOpen", "d": d + 1, "f": fileOf[d], "o": 1})
 		}
 		ng := []int{2, 4, 8, 16}[rng.Intn(4)]
+		// one prepared statement per handle, shared by all goroutines, executed with different arguments
+		ptext := renderQuery(dict, vx.Query{E: &vx.Expr{Op: "ph", Col: 2, Ph: 1}})
+		stmts := make([]*sql.Stmt, nh)
+		for d := 0; d < nh; d++ {
+			stmts[d], _ = dbs[d].Prepare(ptext)
+		}
+		wantArg := func(f, v int) string { // count(a = v) in file f
+			n := 0
+			for _, r := range rowsOf[f] {
+				for _, p := range r {
+					if p == [2]int{2, v} {
+						n++
+					}
+				}
+			}
+			return fmt.Sprint(n)
+		}
 		var wg sync.WaitGroup
 		hung := false
 		for g := 0; g < ng; g++ {
@@ -642,6 +671,19 @@ func recordSQLConc(args []string) error {
 						}
 						if got.Err || len(got.Rows) != 1 || got.Rows[0][0] != wantOf[fileOf[d]] {
 							return fmt.Errorf("wrong rows")
+						}
+						for it := 0; stmts[d] != nil && it < 40; it++ {
+							v := 1 + (g+k+it)%3
+							var pr sqlRows
+							if p := vx.Safely(func() {
+								rows, err := stmts[d].Query(dict.Val(v))
+								pr = collect(rows, err)
+							}); p != nil {
+								panic(p.Value)
+							}
+							if pr.Err || len(pr.Rows) != 1 || pr.Rows[0][0] != wantArg(fileOf[d], v) {
+								return fmt.Errorf("prepared statement with argument %d: wrong rows %v", v, pr.Rows)
+							}
 						}
 						return nil
 					})
@@ -660,6 +702,9 @@ func recordSQLConc(args []string) error {
 			break // goroutines are stuck inside the driver; closing would hang as well
 		}
 		for d := 0; d < nh; d++ {
+			if stmts[d] != nil {
+				stmts[d].Close()
+			}
 			o, _ := watchdog(20*time.Second, func() error { return dbs[d].Close() })
 			emit(map[string]any{"ev": "DBClose", "d": d + 1, "out": o})
 		}
